@@ -155,9 +155,18 @@ class QueueDriver(InstructionGenerator):
         st = sim.stations[sid]
         plugs = sorted(st.state.keys())
         bid = sorted(sim.bases.keys())[0] if sim.bases else None
+        # now and then the operator clears the plugs: everybody charging is told to leave and the waiting vehicles are told to
+        # plug in, all in one instruction phase (several plugs fall free before the queue is next served)
+        shake = rng.random() < 0.10
         for v in sim.get_vehicles():
             act = type(v.vehicle_state).__name__
             r = rng.random()
+            if shake and act == "ChargingStation":
+                out.append(IdleInstruction(v.id))
+                continue
+            if shake and act == "ChargeQueueing" and r < 0.75:
+                out.append(ChargeStationInstruction(v.id, v.vehicle_state.station_id, v.vehicle_state.charger_id))
+                continue
             # mostly a plug the vehicle can use; now and then any plug of the station (wrong energy type included)
             usable = [c for c in plugs if environment.chargers[c].energy_type in v.energy] or plugs
             plug = usable[0] if rng.random() < 0.85 else rng.choice(plugs)
@@ -167,6 +176,12 @@ class QueueDriver(InstructionGenerator):
             elif act == "ChargeQueueing":
                 if r < 0.03 and bid:
                     out.append(DispatchBaseInstruction(v.id, bid))
+                elif r < 0.15:
+                    # re-dispatched to (or told to charge at) the very station it is queueing at, as the built-in off-shift
+                    # human driver heading home is every step: only the head of the queue may get the plug that way
+                    own = v.vehicle_state
+                    cls = DispatchStationInstruction if r < 0.10 else ChargeStationInstruction
+                    out.append(cls(v.id, own.station_id, own.charger_id))
             elif act in ("Idle", "ReserveBase"):
                 if v.geoid == st.geoid:
                     if r < 0.5 and bid:
@@ -315,7 +330,8 @@ def gen_queue_world(rng: random.Random, n_steps: int, variant: Optional[str] = N
     plug = rng.choice(["LEVEL_1", "LEVEL_1", "LEVEL_2"])
     stations = [{"id": "s1", "lat": c0[0], "lon": c0[1], "plugs": [(plug, 1, True)] + ([("DCFC", 1, True)] if rng.random() < 0.25 else [])}]
     bases = [{"id": "b1", "lat": near[0][0], "lon": near[0][1], "station": None, "stalls": 2}]
-    n_v = rng.randint(4, 6)
+    variant = variant or rng.choice(["plain", "plain", "fleet", "mixed", "two"])
+    n_v = rng.randint(4, 6) + (1 if variant == "two" else 0)
     ids = [f"v{k+1}" for k in range(n_v)]
     rng.shuffle(ids)
     vehicles = []
@@ -331,7 +347,8 @@ def gen_queue_world(rng: random.Random, n_steps: int, variant: Optional[str] = N
         vehicles.append({"id": vid, "lat": c[0], "lon": c[1], "mech": "leaf_50", "soc": soc})
     w = {"name": "queue", "dt": dt, "start": 0, "end": dt * n_steps, "cancel": 600, "vehicles": vehicles, "requests": [],
          "stations": stations, "bases": bases, "focus": "queue"}
-    variant = variant or rng.choice(["plain", "plain", "fleet", "mixed"])
+    if variant == "two":
+        stations[0]["plugs"] = [(plug, 2, True)]          # two plugs of the one type: several can fall free in one step
     if variant == "fleet":
         # a PUBLIC station used by fleet members and fleet-less vehicles alike (or a station of the fleet all belong to)
         members = [v["id"] for v in vehicles if rng.random() < 0.5] or [vehicles[0]["id"]]
